@@ -4,7 +4,7 @@ import json, subprocess
 LEVEL = {
  "C01": ("R06,R07,R08,R28,R33,R36", "structural clause: invalid mutations are rejected before any store write on every path; every writer of Column.Cells re-establishes the order/uniqueness invariants"),
  "C02": ("R08,R11,R16,R29,R34,R35,R01,R04", "structural clause: MD5 mismatch cannot reach the storing critical section; all upload protocols funnel through the verified write; gzip/drain wiring; upload state under its mutex"),
- "C03": ("R08,R09,R14,R26", "structural clause: inverted ranges rejected before any scan; engines honour early stop / bounds / order; rows_limit counts rows that produced output"),
+ "C03": ("R08,R09,R14,R26,R43", "structural clause: inverted ranges rejected before any scan; engines honour early stop / bounds / order; rows_limit counts rows that produced output"),
  "C04": ("R11,R12,R17", "structural clause: check-then-act in one critical section on the same object; parser/validator field agreement; failure kind -> 412/304; conditions plumbing on every mutating path; 400 on unparsable"),
  "C05": ("R18,R13,R19,R26,R36,R09,R08", "structural clause: every supported filter handled; invalid arguments rejected with InvalidArgument; branches evaluated on copies; filter errors stop the scan and are returned"),
  "C06": ("R01,R02,R04,R06,R07,R09,R19,R33", "structural clause: row read-modify-write under one uninterrupted write hold of table.mu on all paths; private copies in/out of the store; write-back only on success"),
@@ -15,10 +15,10 @@ LEVEL = {
  "C11": ("R17,R27,R16,R14,R39", "narrow structural clause: 400/404 discipline of list parameters, token codec agreement, Walk ordering contract, nil-safety of resolved items"),
  "C12": ("R19,R06,R07,R02,R30", "structural clause: predicate on a copy; predicate_matched is the branch selector (value identity, polarity); selected list is applied; no store on failure"),
  "C13": ("R08,R07,R02,R14,R09,R33,R37", "structural clause (last sentence of C13): unknown family / non-8-byte increment fail before the single write; private copy; one hold"),
- "C14": ("R07,R01,R04,R05,R08,R21,R33,R38", "structural clause: all-or-nothing ModifyColumnFamilies (no mutation before an error return), registry/definition lock discipline, no escaping definitions, live family map, persistence"),
+ "C14": ("R07,R01,R04,R05,R08,R21,R33,R38,R43", "structural clause: all-or-nothing ModifyColumnFamilies (no mutation before an error return), registry/definition lock discipline, no escaping definitions, live family map, persistence"),
  "C15": ("R08,R11,R14,R16,R15,R22,R10,R33", "structural clause: 32-source bound and missing source rejected before any write; destination critical section; rewrite path split length-checked; nil destination; Copy siblings"),
  "C16": ("R03,R02,R13,R01,R04,R08", "structural clause: the GC callback never writes back a stale iterator row; quiescence test guards the lock on the non-forced path; periodic lock hand-over; negative max versions never bounds a slice"),
- "C17": ("R09,R31,R40", "sibling cross-check of the Rows implementations against the interface contract (I1-I5) plus who-constructs / Clear / iterator discipline"),
+ "C17": ("R09,R31,R40,R43", "sibling cross-check of the Rows implementations against the interface contract (I1-I5) plus who-constructs / Clear / iterator discipline; no caller hands a possibly-nil bound to a scan (the engines differ on it)"),
  "C18": ("R01,R04,R03,R09,R31,R16", "structural clause: scan holds table.mu(R) at every Rows/definition access, reversal is balanced, no write-back from the scan, one iterator per range, fresh row copies"),
  "C19": ("R20,R01,R04", "structural obligations L1-L10 of the lock map (each a necessary condition of a clause of C19)"),
  "C20": ("R13,R14,R15,R16,R01,R04,R05,R17,R25,R08", "crash/wedge vectors visible in code shape for both emulators: sign/length checks, nil contracts (interprocedural), response typestate, lock discipline, reasoned panics"),
@@ -40,7 +40,7 @@ TECH = {
  "C14":"CFG reachability mutation->error return, must-lockset, escape analysis of guarded references",
  "C15":"dominance by bound check, critical-section analysis, length-fact solver for constant indices, nilness",
  "C16":"lockset epoch analysis (stale write-back), CFG edge-cut reachability (quiescence), taint+guard",
- "C17":"sibling cross-check of interface implementations on SSA",
+ "C17":"sibling cross-check of interface implementations on SSA; may-be-nil provenance of scan bounds",
  "C18":"must-lockset dataflow incl. lock reversal closures, sibling cross-check",
  "C19":"lockset + CFG/SSA obligations L2-L10 on gcsutil",
  "C20":"interprocedural nilness with summaries, taint+guard, length-fact solver, go/cfg response typestate, must-lockset, panic/assertion tables",
